@@ -25,7 +25,9 @@ try:
             for p in props:
                 rc, out = sh("./check %s" % p, cwd=V)
                 ob = [l.strip()[:150] for l in out.split("\n") if l.strip().startswith("obligation:")]
-                res.append("%s=%s" % (p, {0: "ok", 1: "VIOLATION", 2: "undecided"}.get(rc, rc)) + (" [%s]" % "; ".join(ob[:2]) if ob else ""))
+                vl = [l for l in out.split("\n") if l.startswith("VIOLATION ")]
+                conc = any(not l.rstrip().endswith("no-failing-input-found") for l in vl)
+                res.append("%s=%s" % (p, {0: "ok", 1: "VIOLATION" + ("(concrete-input)" if conc else "(no-input)"), 2: "undecided"}.get(rc, rc)) + (" [%s]" % "; ".join(ob[:2]) if ob else ""))
         finally:
             sh("git -C /repo checkout HEAD -- . ; git -C /repo reset -q HEAD")
         rows.append((sid, " ".join(res), ",".join(meta.get("detected_by", []))))
